@@ -312,6 +312,12 @@ func (f *Frame) postEnv(ex *Exit, entry *SpecEnv, sig *types.Signature) *SpecEnv
 				post.names[v.Name()] = cur
 			}
 		}
+		// an interface parameter is a handle to abstract state: it names the exit state as well
+		if _, isIfc := f.typ(v.Type()).Underlying().(*types.Interface); isIfc && f.c.sorts.SortOf(f.typ(v.Type())) != "Err" {
+			if cur, ok := ex.st.env[v]; ok {
+				post.names[v.Name()] = cur
+			}
+		}
 	}
 	upd(sig.Recv())
 	for i := 0; i < sig.Params().Len(); i++ {
@@ -364,6 +370,13 @@ func (f *Frame) frameObligations(ex *Exit, entry *SpecEnv, sig *types.Signature,
 			return // whole pointee may change
 		}
 		t := f.typ(v.Type())
+		if _, isIfc := t.Underlying().(*types.Interface); isIfc && f.c.sorts.SortOf(t) != "Err" && !listed {
+			// the abstract state behind an interface parameter not named in modifies is unchanged
+			if cur, ok := ex.st.env[v]; ok && cur.T != entry.names[v.Name()].T {
+				f.oblige(ex.st, "frame", fmt.Sprintf("%s@exit%d", v.Name(), ei), fmt.Sprintf("(= %s %s)", cur.T, entry.names[v.Name()].T), ex.pos, fmt.Sprintf("state behind %s unchanged (not listed in modifies)", v.Name()))
+			}
+			return
+		}
 		if _, isPtr := t.Underlying().(*types.Pointer); !isPtr || isBigInt(t) {
 			return
 		}
